@@ -344,7 +344,7 @@ CHECKS["C09"] = dict(
 CHECKS["C11"] = dict(
     explanation="posix PutObject (new key / overwrite), DeleteObject, CompleteMultipartUpload, CopyObject (new / existing destination), UploadPart (a second part of an upload; afterwards the upload listing, "
                 "the part listing and the object listing show no left-over and the upload stays usable) and, in a bucket with versioning "
-                "enabled, overwriting PutObject and DeleteObject (previous version must stay retrievable by id) on the file-system model, killed before an arbitrary file-system step (every step "
+                "enabled, overwriting PutObject, DeleteObject and DeleteObject by version id (newest version or marker: the previous one is re-exposed; older version) (previous version must stay retrievable by id) on the file-system model, killed before an arbitrary file-system step (every step "
                 "of the operation is a crash point; no deferred clean-up runs), both temp-file strategies; a fresh Posix value then reads the key: it must "
                 "be in its complete previous or complete new state (bytes, length, ETag consistent), an acknowledged upload persists, left-over "
                 "temporaries are not listed and block neither re-upload, delete nor bucket deletion.",
@@ -352,10 +352,11 @@ CHECKS["C11"] = dict(
         dict(name="H11-crash", entry="backend/posix.VfCrash", reach=["crashed", "completed-without-crash"], key_trace=['"crash before'], **_FS),
         dict(name="H11-crash-copy", entry="backend/posix.VfCrashCopy", reach=["crashed", "completed-without-crash"], key_trace=['"crash before'], **_FS),
         dict(name="H11-crash-versioned", entry="backend/posix.VfCrashVersioned", reach=["crashed", "completed-without-crash"], key_trace=['"crash before'], **_FS),
+        dict(name="H11-crash-delete-by-id", entry="backend/posix.VfCrashVersionedDeleteByID", reach=["crashed", "completed-without-crash"], key_trace=['"crash before'], **_FS),
         dict(name="H11-crash-uploadpart", entry="backend/posix.VfCrashUploadPart", reach=["crashed", "completed-without-crash"], key_trace=['"crash before'], **_FS),
     ],
     assumptions=["file-system model: every completed step is durable (no fsync modelling), no torn writes", "xattr metadata store"],
-    outside=["UploadPart crash points other than for part 2 of an upload with one acknowledged part", "versioned buckets: multipart completion, delete by version id, suspended versioning",
+    outside=["UploadPart crash points other than for part 2 of an upload with one acknowledged part", "versioned buckets: multipart completion, suspended versioning, histories longer than two versions; between the link and the removal of the stored copy a re-exposed version is listed twice until the next write (not asserted)",
              "bodies longer than one byte (multi-write data paths)", "sidecar metadata store", "power loss (unsynced data): every completed step is taken as durable"],
 )
 
